@@ -35,6 +35,44 @@ pub fn run<C: NatCtx>(v: &mut Env<C>) {
     let sizes: Vec<usize> = if v.small {
         if quick { if p == big(23) { vec![1, 4, 50, 65, 129, 300] } else { vec![1, 33, 257, 520] } } else { vec![1, 2, 17, 33, 65, 120, 129, 257, 500, 513, 1025, 2049] }
     } else if quick { vec![3] } else { vec![2, 10, 40, 70] };
+    // ---- SCALE (implementation only; this code runs in the sequential AND in the rayon build): vectors far beyond
+    // any parallel block size are encoded as count || framed items IN ORDER (reference assembled here item by
+    // item), decode back, and a shuffle of that size proves and verifies
+    if v.small && p == big(23) && C::kind() == 'B' {
+        let key = PrivateKey::from(&v.x(&big(5)), &ctx);
+        for nn in if quick { vec![8193usize, 8195, 20001, 70001] } else { vec![4097, 8193, 8195, 16385, 20001, 32769, 70001, 140001] } {
+            let es: Vec<C::E> = (0..nn).map(|_| ctx.rnd()).collect();
+            let xs: Vec<C::X> = (0..nn).map(|_| ctx.rnd_exp()).collect();
+            let cts: Vec<Ciphertext<C>> = es.iter().map(|m| key.get_pk().encrypt(m)).collect();
+            fn framed<T: StrandSerialize>(items: &[T]) -> Vec<u8> {
+                let mut o = (items.len() as u32).to_le_bytes().to_vec();
+                for it in items {
+                    let bs = it.strand_serialize().unwrap();
+                    o.extend((bs.len() as u32).to_le_bytes());
+                    o.extend(bs);
+                }
+                o
+            }
+            let be = StrandVectorE::<C>(es.clone()).strand_serialize().unwrap();
+            let bx = StrandVectorX::<C>(xs.clone()).strand_serialize().unwrap();
+            let bc = StrandVectorC::<C>(cts.clone()).strand_serialize().unwrap();
+            let first_diff = |a: &[u8], b_: &[u8]| a.iter().zip(b_.iter()).position(|(x, y)| x != y).unwrap_or(a.len().min(b_.len()));
+            for (what, got, want) in [("StrandVectorE", &be, framed(&es)), ("StrandVectorX", &bx, framed(&xs)), ("StrandVectorC", &bc, framed(&cts))] {
+                v.h.check(*got == want, || format!("{} of {} items: the encoding ({} bytes) is not count || framed items in order ({} bytes, first difference at byte {}) on {}", what, nn, got.len(), want.len(), first_diff(got, &want), tok));
+            }
+            v.h.check(StrandVectorE::<C>::strand_deserialize(&be).map(|x| x.0 == es).unwrap_or(false), || format!("StrandVectorE of {} items does not round-trip on {}", nn, tok));
+            v.h.check(StrandVectorX::<C>::strand_deserialize(&bx).map(|x| x.0 == xs).unwrap_or(false), || format!("StrandVectorX of {} items does not round-trip on {}", nn, tok));
+            v.h.check(StrandVectorC::<C>::strand_deserialize(&bc).map(|x| x.0 == cts).unwrap_or(false), || format!("StrandVectorC of {} items does not round-trip on {}", nn, tok));
+            if nn <= 20001 || !quick {
+                let gens = ctx.generators(nn + 1, b"scale19");
+                let pk19 = key.get_pk();
+                let sh = Shuffler::new(&pk19, &gens, &ctx);
+                let (eps, rs, perm) = sh.gen_shuffle(&cts);
+                let ok = sh.gen_proof(&cts, &eps, &rs, &perm, b"s").ok().map(|pf| sh.check_proof(&pf, &cts, &eps, b"s").unwrap_or(false)).unwrap_or(false);
+                v.h.check(ok, || format!("honest shuffle proof for N = {} rejected on {}", nn, tok));
+            }
+        }
+    }
     let mut out_lines: Vec<String> = vec![];
     for nn in sizes {
         let sk = v.rnd_exp();
